@@ -774,4 +774,13 @@ def r6_8(run):
     r4_8(run)
 
 
-RULES = [("R6.1", r6_1), ("R6.2", r6_2), ("R6.3", r6_3), ("R6.4", r6_4), ("R6.5", r6_5), ("R6.6", r6_6), ("R6.7", r6_7), ("R6.8", r6_8)]
+def r6_9(run):
+    """results are written by position into the result table, so the table must carry the element table's *current* labels:
+    on every path init_results_element rebinds net['res_<element>'] to a frame indexed by net[<element>].index (a result table
+    kept from an earlier run keeps the earlier labels; shared with C05 R5.8)"""
+    from .c05 import r5_8
+    r5_8(run)
+
+
+RULES = [("R6.1", r6_1), ("R6.2", r6_2), ("R6.3", r6_3), ("R6.4", r6_4), ("R6.5", r6_5), ("R6.6", r6_6), ("R6.7", r6_7), ("R6.8", r6_8),
+         ("R6.9", r6_9)]
